@@ -5,6 +5,7 @@ import Driver.CidIO
 import Driver.Monitor
 import Driver.HandlerVal
 import Driver.ConnVal
+import Driver.LinkVal
 open Beetswap
 
 def splitAt (bs : List Nat) (cuts : List Nat) : List (List Nat) :=
@@ -158,9 +159,44 @@ def cvalidateMain (file : String) : IO Unit := do
     | none => pure ()
   out.putStrLn s!"cvalidated connections={order.length} lines={lines.length} polls={polls} rejected={bad}"
 
+/-- `bsdriver lvalidate <link log>`: lines `r=<run> n=<node> B|H …`: each node's run — behaviour operations and
+handler records in the order they happened — replayed through `Model/ClientLink`. -/
+def lvalidateMain (file : String) : IO Unit := do
+  let lines := ((← IO.FS.readFile file).splitOn "\n").filter (!·.isEmpty)
+  let out ← IO.getStdout
+  let mut groups : Std.HashMap String (Array String) := {}
+  let mut order : List String := []
+  for l in lines do
+    match l.splitOn " " with
+    | r :: n :: rest =>
+      let key := s!"{r} {n}"
+      if !groups.contains key then order := key :: order
+      groups := groups.alter key fun a => some ((a.getD #[]).push (" ".intercalate rest))
+    | _ => pure ()
+  let mut bad := 0
+  let mut handovers := 0
+  let mut reports := 0
+  for key in order.reverse do
+    let mut v : Driver.LinkVal.LV := {}
+    let mut i := 0
+    let mut failed := false
+    for l in (groups.getD key #[]) do
+      if !failed then
+        let (v', why) := Driver.LinkVal.stepLine v l
+        v := v'
+        if let some w := why then
+          failed := true
+          bad := bad + 1
+          out.putStrLn s!"lviol {key} line {i}: `{l}`: {w}"
+      i := i + 1
+    handovers := handovers + v.handovers
+    reports := reports + v.reports
+  out.putStrLn s!"lvalidated nodes={order.length} lines={lines.length} handovers={handovers} reports={reports} rejected={bad}"
+
 def main (args : List String) : IO Unit := do
   match args with
   | ["monitor", ops, imp] => monitorMain ops imp
   | ["hvalidate", file] => hvalidateMain file
   | ["cvalidate", file] => cvalidateMain file
+  | ["lvalidate", file] => lvalidateMain file
   | _ => loop (← IO.getStdin) (← IO.getStdout) {}
